@@ -909,6 +909,15 @@ func TestPublicRuns(t *testing.T) {
 					a[3], a[4] = 1, 2
 				}
 			}
+			if !same && rapid.IntRange(0, 3).Draw(t, "semicircle") == 0 {
+				// a half circle: both radii bit-exactly half the length of the (axis-parallel) chord
+				a[1] = a[0]
+				a[3], a[4] = 2*a[0], 0
+				if rapid.Bool().Draw(t, "semi.vertical") {
+					a[3], a[4] = 0, -2*a[0]
+				}
+				labels = append(labels, "arc-whose-radii-are-exactly-half-its-chord")
+			}
 			c.Arcs = append(c.Arcs, a)
 		}
 		subRuns.See(c, len(labels) > 0, harness.HashJSON(c), labels...)
